@@ -81,7 +81,9 @@ def trees(tier):
         d1t = Lt + list(sig_trees(Lt))
         d2t = list(sig_trees(d1t))
         for op in BIN + ['min', 'max']:
-            for a in d2t:
+            for ai, a in enumerate(d2t):
+                if ai % 3:
+                    continue        # stated stride: every third depth-2 subtree
                 for b in Lt:
                     out.append(('d3', (op, a, b)))
                     out.append(('d3', (op, b, a)))
@@ -393,7 +395,7 @@ def run(ctx):
     ctx.bounds = dict(trees=len(tl), reject_cases=len(rej), trees_by_depth=ctx.notes.get('trees_by_depth'),
                       exhaustive_depths='depth 0-1 over the full leaf set (22 leaves incl. both spellings of the leading-underscore parameter, '
                       't, volume) and both species/parameter splits; depth 2 over a reduced leaf set (thorough: full signature; quick: one '
-                      'compound argument); depth 3 (thorough) over leaves {A, 2} with one compound argument; depths 3-5 by systematic nesting '
+                      'compound argument); depth 3 (thorough) over leaves {A, 2} with one compound argument (binary operators: every third depth-2 subtree); depths 3-5 by systematic nesting '
                       '(capped, not exhaustive)', points=len(POINTS) * len(TIMES) * (len(VOLS) + 1))
     ctx.rule = ('E2: expression trees over {+,-,*,/,^,unary -,exp,log,abs,Heaviside (both spellings),min,max (2 and 3 arguments)} and leaves '
                 '{integers, decimals, scientific notation, species, parameters, t, volume} with the identifier pool {A,x2,k_1,a_b,_p/|p,C,O,Q,N,I,E,S} '
